@@ -212,14 +212,38 @@ def parseInjBase (s : String) : Option Inj :=
     | ["f", rules] => (allSome ((rules.splitOn "+").map parseFRule)).map .script
     | _ => Option.none
 
+/-- One rule of an output script (C16): `<kind>.<selector>.<stream><pattern><shift>.<size>` — which invocations print how many
+generated bytes of which pattern on which stream (`harness/src/lct/mod.rs`, `OutRule`). Only checked for well-formedness:
+what a command prints is not an input of the model (`Model/TestRunner.Oracle` answers with a `Failure` or nothing), so the
+model's command sequence is the same for every output script by construction. -/
+def validOutRule (s : String) : Bool :=
+  match s.splitOn "." with
+  | [k, sel, spec, size] =>
+    (parseFKind k).isSome && (parseFSel sel).isSome &&
+    (match spec.toList with
+     | [st, pat, sh] => ['o', 'e', 'b'].contains st && ['a', '2', '3', '4', 'm', 'i'].contains pat && ['0', '1', '2', '3'].contains sh
+     | _ => false) &&
+    (match size.toNat? with
+     | some n => decide (n ≤ 4194304) && size.length ≤ 7 && (size.length = 1 || !size.startsWith "0") && size.all Char.isDigit
+     | Option.none => false)
+  | _ => false
+
 /-- `<injection>[@<flavour>]`; the flavour (0..3) selects what the stand-in tools print. Only flavour 3 matters to the
 model: `docker port` then prints two lines, which `address_for_port` cannot parse — it panics after the command -/
-def parseInj (s : String) : Option (Inj × Nat) :=
+def parseInjFlavour (s : String) : Option (Inj × Nat) :=
   match s.splitOn "@" with
   | [b] => (parseInjBase b).map (fun i => (i, 0))
   | [b, f] => (match parseInjBase b, f.toNat? with
     | some i, some f => if f ≤ 3 then some (i, f) else Option.none
     | _, _ => Option.none)
+  | _ => Option.none
+
+/-- `<injection>[@<flavour>][~<output script>]`: the output script (rules joined by `+`) must be well-formed and is otherwise
+ignored — outputs do not reach the model -/
+def parseInj (s : String) : Option (Inj × Nat) :=
+  match s.splitOn "~" with
+  | [x] => parseInjFlavour x
+  | [x, o] => if (o.splitOn "+").all validOutRule then parseInjFlavour x else Option.none
   | _ => Option.none
 
 /-- the stand-ins: the k-th *logged* command exits non-zero; or a tool disappears before its j-th invocation -/
